@@ -60,6 +60,9 @@ type AScn struct {
 	Twice bool `json:"twice,omitempty"`
 	// Dest2 (index+1 into the address kinds, 0 = none): the document has a second run, without hops, whose destination is
 	// this other address (a round-robin hostname resolved per run)
+	// Wide: this many further hops, each with an address of its own (a long path, several runs' worth of addresses in one
+	// enrichment); every third one answers slowly
+	Wide       int             `json:"wide,omitempty"`
 	Dest2      int             `json:"dest2,omitempty"`
 	second     *result.Results `json:"-"`
 	firstCalls map[string]int  `json:"-"`
@@ -75,6 +78,9 @@ func runA(sc *AScn, prefix []int, sig []uint32) (*vsched.Exec, *result.Results, 
 		calls[a]++
 		if recovered {
 			return []string{"name-of-" + a + "."}, nil
+		}
+		if sc.Wide > 0 && calls[a] == 1 && len(calls)%3 == 0 {
+			vtime.Sleep(50 * time.Millisecond)
 		}
 		switch behaviours[sc.Beh[a]] {
 		case "timeout":
@@ -107,6 +113,9 @@ func runA(sc *AScn, prefix []int, sig []uint32) (*vsched.Exec, *result.Results, 
 			}
 			run.Hops = append(run.Hops, h)
 		}
+		for i := 0; i < sc.Wide; i++ {
+			run.Hops = append(run.Hops, &result.TracerouteHop{TTL: len(sc.Hops) + i + 1, IPAddress: net.IP{198, 51, byte(100 + i/200), byte(1 + i%200)}, RTT: float64(i) + 0.5, Reachable: true})
+		}
 		res := &result.Results{Protocol: "udp", Traceroute: result.Traceroute{Runs: []result.TracerouteRun{run}}}
 		if sc.Dest2 > 0 {
 			res.Traceroute.Runs = append(res.Traceroute.Runs, result.TracerouteRun{Destination: result.TracerouteDestination{IPAddress: addrKinds[sc.Dest2-1].ip(), Port: 80}})
@@ -115,7 +124,8 @@ func runA(sc *AScn, prefix []int, sig []uint32) (*vsched.Exec, *result.Results, 
 	}
 	before, doc := mk(), mk()
 	sc.second, sc.firstCalls = nil, nil
-	x := vsched.Run(vsched.Config{Prefix: prefix, PrefixSig: sig, MaxVirtual: time.Hour}, nil, func() {
+	// (a wide document: hundreds of lookup threads - every switch away from the default schedule costs one deviation)
+	x := vsched.Run(vsched.Config{Prefix: prefix, PrefixSig: sig, MaxVirtual: time.Hour, DelayBounded: sc.Wide > 0, MaxSteps: 200000 + 2000*sc.Wide}, nil, func() {
 		doc.EnrichWithReverseDns()
 		if sc.Twice {
 			sc.firstCalls = map[string]int{}
@@ -212,6 +222,11 @@ func checkA(sc *AScn, x *vsched.Exec, before, doc *result.Results, calls map[str
 		}
 		for _, k := range all {
 			if ip := addrKinds[k].ip(); len(ip) > 0 && ip.String() == a {
+				occ++
+			}
+		}
+		for _, h := range run.Hops[len(sc.Hops):] { // (the further hops of a wide document)
+			if h.IPAddress.String() == a {
 				occ++
 			}
 		}
@@ -335,6 +350,11 @@ func genA(tier string) []AScn {
 				out = append(out, s)
 			}
 		}
+	}
+	// long paths: 30, 64, 65, 93 and 200 further addresses in one enrichment (three runs of thirty hops are 93): every one
+	// of them is looked up and gets its own names, however many lookups are in flight at once
+	for _, w := range []int{30, 64, 65, 93, 200} {
+		out = append(out, AScn{Dest: 0, Hops: []int{1, 4}, Beh: map[string]int{}, Wide: w})
 	}
 	return out
 }
